@@ -144,6 +144,10 @@ def build_node(node, objs, notes=None):
     return {leaves.dec(kk): deref(r, objs) for kk, r in zip(node['keys'], node['items'])}
   if k == 'nt':
     return _NT[node['type']](*[deref(r, objs) for r in node['items']])
+  if k == 'odict':   # dict subclass with leaf values: an opaque value for daglish
+    return collections.OrderedDict((leaves.dec(kk), leaves.dec(v)) for kk, v in zip(node['keys'], node['vals']))
+  if k == 'lsub':    # list subclass with leaf values
+    return things.ListSub(leaves.dec(v) for v in node['vals'])
   if k == 'TV':
     tg = [vtags.ALL[t] for t in node['tags']]
     if node.get('value') is None:
@@ -301,8 +305,7 @@ def arg_program(draw, fnspec, pick_ref, patterns=None):
       else:
         late.append(['setattr', name, pick_ref()])
   if info.varkw:
-    for j in range(draw(st.sampled_from([0, 0, 1, 2]))):
-      name = f'z{j}'
+    for name in draw(st.permutations(['z0', 'z1', 'y9']))[:draw(st.sampled_from([0, 0, 1, 2, 3]))]:
       if draw(st.booleans()):
         kw[name] = pick_ref()
       else:
